@@ -710,11 +710,15 @@ func (l *Lowerer) lowerStruct(s *parser.StructDecl) error {
 		// Check for explicit @align(N) attribute on the member
 		if explicitAlign := getAlignAttribute(m.Attributes); explicitAlign > 0 {
 			align = explicitAlign
+		} else if v, ok := l.attrConstUint(m.Attributes, "align"); ok && v > 0 {
+			align = v
 		}
 
 		// Check for explicit @size(N) attribute on the member
 		if explicitSize := getSizeAttribute(m.Attributes); explicitSize > 0 {
 			size = explicitSize
+		} else if v, ok := l.attrConstUint(m.Attributes, "size"); ok && v > 0 {
+			size = v
 		}
 
 		if align > maxAlign {
@@ -736,6 +740,20 @@ func (l *Lowerer) lowerStruct(s *parser.StructDecl) error {
 	structSize := (offset + maxAlign - 1) &^ (maxAlign - 1)
 	l.registerNamedType(s.Name, ir.StructType{Members: members, Span: structSize})
 	return nil
+}
+
+// attrConstUint evaluates the argument of the attribute `name` as a constant
+// expression. It covers the spellings the decimal-literal fast paths below do not
+// read: hexadecimal literals, named constants, parenthesised and arithmetic expressions.
+func (l *Lowerer) attrConstUint(attrs []parser.Attribute, name string) (uint32, bool) {
+	for _, attr := range attrs {
+		if attr.Name == name && len(attr.Args) == 1 {
+			if v, ok := l.tryEvalConstantUint(attr.Args[0]); ok && v <= math.MaxUint32 {
+				return uint32(v), true
+			}
+		}
+	}
+	return 0, false
 }
 
 // getAlignAttribute extracts the value from an @align(N) attribute, returns 0 if not found.
